@@ -614,6 +614,7 @@ package ggql
 //@ spec argDeclared(t Type, fname string, aname string) bool = fdOf(t, fname) != nil && fdOf(t, fname).args.dict[aname] != nil
 //@ fieldinv FieldDef.args: true
 //@ eleminv []*Arg: v != nil
+//@ eleminv map[string]*Arg: v != nil
 
 //@ func (*Field).getArg
 //@   props C10
@@ -644,12 +645,44 @@ package ggql
 //@           invariant[found]{C10} forall i int :: 0 <= i && i <= rangeindex && !argDeclared(f.ConType, f.Name, f.Args[i].Arg) ==> len(errors) > 0
 //@           decreases len(f.Args) - rangeindex
 
-//@ func (*Root).formArgs
+//@ interface InCoercer.CoerceIn
+//@   ensures[err-fresh] aserr(err) == nil
+//@   assigns fresh
+
+//@ spec nonNullArg(fd *FieldDef, k string) bool = fd != nil && fd.args.dict != nil && has(fd.args.dict, k) && is(fd.args.dict[k].Type, *NonNull)
+//@ -- suppliedUpTo(args, k, n): one of the first n argument values is a non-null value for argument k (prefix function, unfolded by axiom)
+//@ spec suppliedUpTo(args []*ArgValue, k string, n int) bool reads SH_Int, H_ArgValue.Arg, H_ArgValue.Value
+//@ autoaxiom suppliedBase(args []*ArgValue, k string) {suppliedUpTo(args, k, 0)}: !suppliedUpTo(args, k, 0)
+//@ axiom suppliedStep(args []*ArgValue, n int): n >= 0 ==> (forall k string {suppliedUpTo(args, k, n+1)} :: suppliedUpTo(args, k, n+1) <==> (suppliedUpTo(args, k, n) || (args[n] != nil && args[n].Arg == k && args[n].Value != nil)))
+
+//@ func (*Root).replaceArgVars
 //@   abstract (not yet checked against the body)
-//@   requires field != nil
 //@   ensures errsFresh(ea)
 //@   ensures #res == old(#res)
 //@   assigns fresh
+
+//@ func (*Root).formArgs
+//@   props C10
+//@   check panic {C03}
+//@   check frame {C11}
+//@   requires root != nil && field != nil
+//@   ensures[errs-fresh]{C06} errsFresh(ea)
+//@   ensures[no-resolver]{C10} #res == old(#res)
+//@   ensures[required-missing]{C10} forall k string :: nonNullArg(fd, k) && !suppliedUpTo(old(field.Args), k, len(old(field.Args))) ==> len(ea) > 0
+//@   assigns fresh
+//@   loop 0: invariant[req] forall k string :: seen(0, k) && is(fd.args.dict[k].Type, *NonNull) ==> has(required, k) && !required[k]
+//@           invariant[req-only] forall k string :: has(required, k) ==> !required[k]
+//@   loop 1: invariant[bounds] rangeindex+1 <= len(field.Args)
+//@           invariant[errs] errsFresh(ea)
+//@           invariant[req] forall k string :: nonNullArg(fd, k) ==> has(required, k)
+//@           invariant[supplied] forall k string :: has(required, k) ==> (required[k] <==> suppliedUpTo(field.Args, k, rangeindex+1))
+//@           use suppliedStep(field.Args, rangeindex+1)
+//@           invariant[args-fresh] args != nil && fresh(args)
+//@           decreases len(field.Args) - rangeindex
+//@   loop 2: invariant[errs] errsFresh(ea)
+//@           invariant[missing] forall k string :: seen(2, k) && has(required, k) && !required[k] ==> len(ea) > 0
+
+//@ spec suppliedAny(field *Field, k string) bool = exists i int :: 0 <= i && i < len(field.Args) && field.Args[i] != nil && field.Args[i].Arg == k
 
 //@ func (*Root).resolveReflect
 //@   abstract reflection strategy (reflect.Value.Call and struct field reads are user data access)
